@@ -555,7 +555,7 @@ private theorem classifyLeak_ne_ok (cs : Case) (o : Obs) : classifyLeak cs o ≠
   all_goals simp
 
 private theorem classifyQuiet_ok_iff (cs : Case) (o : Obs) :
-    classifyQuiet cs o = .ok ↔ (progressOk cs o = true ∧ panicOk cs o = true) := by
+    classifyQuiet cs o = .ok ↔ (lingerOk cs o = true ∧ progressOk cs o = true ∧ panicOk cs o = true) := by
   simp only [classifyQuiet, panicOk]
   repeat' split
   all_goals (try (simp_all; done))
@@ -574,8 +574,10 @@ theorem spec_iff_ok (cs : Case) (o : Obs) : spec cs o = true ↔ classify cs o =
   all_goals (by_cases h7 : o.roundsBlocked = 0)
   all_goals (try simp_all)
   all_goals (try omega)
-  all_goals (have h8 : 0 < o.roundsBlocked := by omega)
-  all_goals (simp [h8])
+  all_goals (first
+    | exact and_assoc
+    | (have h8 : 0 < o.roundsBlocked := by omega
+       simp [h8]))
 
 private theorem classifyLeak_a (cs : Case) (o : Obs) :
     classifyLeak cs o = .closeBeforeRunning ↔ isCloseBeforeRunning cs o = true := by
@@ -644,7 +646,7 @@ theorem known_findings_only_at_creation (cs : Case) (o : Obs)
 
 /-- the model's prediction for a Close without any panic, written out -/
 private def quietObs (cs : Case) (t n k : Nat) : Obs :=
-  { survived := true, crashed := false, hung := false, closeCalled := true, closeReturned := true, closePanicked := false, firstCloseBad := false, roundsBlocked := 0, progress := 1,
+  { survived := true, crashed := false, hung := false, closeCalled := true, closeReturned := true, closePanicked := false, firstCloseBad := false, soonLeft := 0, roundsBlocked := 0, progress := 1,
     closedAtNs := t, errNotRunning := n, errNotStarted := k, errOther := 0,
     leakedServiceStart := n, leakedService := n + k, leakedAux := 0, leakedInflight := 0, ticking := decide (n + k > 0),
     bubbleEnded := decide (k = 0), after2ndServiceStart := 0, after2ndService := k,
@@ -664,7 +666,7 @@ theorem spec_model_clean_close (fx : Fixes) (cs : Case) (t n k : Nat) (ht : 0 < 
     spec cs (predict fx cs 0 0 0 true 0) = true ∧ spec cs (predict fx cs t n k true 0) = true ∧
     (predict fx cs t n k true 0).errNotRunning = 0 ∧ (predict fx cs t n k true 0).errNotStarted = 0 := by
   rw [predict_nopanic, predict_nopanic_late fx cs t n k ht]
-  simp [spec, quietObs, panicOk, progressOk, progressDue, Obs.leak, panicClauseApplies]
+  simp [spec, quietObs, panicOk, progressOk, progressDue, lingerOk, Obs.leak, panicClauseApplies]
 
 /-- … and on the model's prediction for `n ≥ 1` recoverers closed before they were running (schedule (a)) it fails with
     exactly the known-finding string -/
@@ -700,7 +702,7 @@ private theorem run_site (fx : Fixes) (site : String) (c : Bool) (n : Nat)
 
 /-- the model's prediction after one injected panic in scenario "panic", plugin settled, Close (at `t`) at the end -/
 private def panicObs (cs : Case) (t : Nat) (crashed : Bool) (nRun : Nat) : Obs :=
-  { survived := !crashed, crashed := false, hung := false, closeCalled := !crashed, closeReturned := !crashed, closePanicked := false, firstCloseBad := false, roundsBlocked := 0,
+  { survived := !crashed, crashed := false, hung := false, closeCalled := !crashed, closeReturned := !crashed, closePanicked := false, firstCloseBad := false, soonLeft := 0, roundsBlocked := 0,
     progress := if !crashed then 1 else 0, closedAtNs := t, errNotRunning := 0, errNotStarted := 0, errOther := 0,
     leakedServiceStart := 0, leakedService := 0, leakedAux := 0, leakedInflight := 0, ticking := false,
     bubbleEnded := !crashed, after2ndServiceStart := 0, after2ndService := 0, panicsInjected := 1, resumed := decide (nRun > 0),
@@ -728,7 +730,7 @@ theorem spec_model_panic_contained (cs : Case) (t : Nat) (hs : cs.scenario = "pa
     rcases h with h | h | h | h | h | h | h | h | h | h | h | h | h <;> rw [h] <;> exact run_site current _ false 1 (by decide)
   obtain ⟨s, hrun, hc, hn⟩ := key
   rw [predict_panic current cs t s hrun, hc, hn]
-  simp [spec, panicObs, panicOk, progressOk, progressDue, Obs.leak, panicClauseApplies, resumeBound, hs]
+  simp [spec, panicObs, panicOk, progressOk, progressDue, lingerOk, Obs.leak, panicClauseApplies, resumeBound, hs]
   omega
 
 /-- without the worker-group fix the model predicts that a pipeline panic kills the process; the oracle says so -/
@@ -751,9 +753,9 @@ theorem spec_reports_service_panic_not_resumed_old (cs : Case) (t : Nat) (h : cs
   rw [← h] at hrun
   rw [predict_panic _ cs t s hrun, hc, hn]
   constructor
-  · simp [spec, panicObs, panicOk, progressOk, progressDue, Obs.leak, panicClauseApplies, hs]
+  · simp [spec, panicObs, panicOk, progressOk, progressDue, lingerOk, Obs.leak, panicClauseApplies, hs]
   · have hcl : classify cs (panicObs cs t false 0) = .panicNotResumed := by
-      simp [classify, classifyQuiet, panicObs, progressOk, progressDue, Obs.leak, panicClauseApplies, hs]
+      simp [classify, classifyQuiet, panicObs, progressOk, progressDue, lingerOk, Obs.leak, panicClauseApplies, hs]
     unfold explain; rw [hcl]; rfl
 
 /-- without the v2 coordinator fix the model predicts that a panic in its log poll kills the process; the oracle says so -/
